@@ -41,7 +41,7 @@ def discharge(res, tier, pid, concretise=None, replay=None, known=None, bounded_
         return unit
     timeout = solve.tier_timeout(tier)
     by_name = {}
-    vcdir = os.path.join(VERIF, 'evidence', 'vc', pid)
+    vcdir = os.path.join(os.environ.get('PYVC_EVIDENCE_DIR') or os.path.join(VERIF, 'evidence'), 'vc', pid)
     os.makedirs(vcdir, exist_ok=True)
     for o in res.obligations:
         by_name.setdefault(o['name'], []).append(o)
@@ -106,7 +106,7 @@ def _safe(name):
 def lemma(name, pc, goal, tier, pid, expr=None, assumptions=()):
     '''a stand-alone lemma obligation over contracts (no code walked)'''
     timeout = solve.tier_timeout(tier)
-    vcdir = os.path.join(VERIF, 'evidence', 'vc', pid)
+    vcdir = os.path.join(os.environ.get('PYVC_EVIDENCE_DIR') or os.path.join(VERIF, 'evidence'), 'vc', pid)
     os.makedirs(vcdir, exist_ok=True)
     v = solve.check(list(pc), goal, timeout, dump=os.path.join(vcdir, _safe(name) + '.smt2'), second=(tier == 'thorough'))
     rec = {'name': name, 'kind': 'lemma', 'instances': 1, 'expr': expr, 'status': v['status'],
